@@ -37,6 +37,7 @@ import hashlib
 import io
 import os
 import random
+import re
 import shutil
 import signal
 import sys
@@ -235,7 +236,9 @@ class FsGuard:
 # the store under test
 
 WATCHDOG_S = 10.0
-USERS = {'user1': 'pass1', 'user1x': 'pass2'}
+# user1x: the actor's name is a string prefix of it; USER1: equal to it under casefold
+USERS = {'user1': 'pass1', 'user1x': 'pass2', 'USER1': 'pass3'}
+VICTIMS = ('user1x', 'USER1')
 MSG = {u: (b'From: %s@example.com\r\nSubject: marker of %s\r\n\r\nprivate text of %s\r\n'
            % (u.encode(), u.encode(), u.encode())) for u in USERS}
 
@@ -606,6 +609,15 @@ def concretise(absname, layout: str, full: bool, long_too: bool = True) -> list:
         out.append(('icase', b''.join(b'iNbOx' if s == 'I' else CONC[s] for s in syms)))
     if 'U' in syms:
         out.append(('utf8', b''.join(b'\xc3\xa9' if s == 'U' else CONC[s] for s in syms)))
+        # compatibility look-alikes of "." and "/" (FULLWIDTH FULL STOP, FULLWIDTH SOLIDUS, ONE DOT
+        # LEADER): non-ASCII letters like any other - unless something normalises the name
+        # after it was validated
+        for tag, enc in (('compat-dot', b'&,w4-'), ('compat-sep', b'&,w8-'), ('dot-leader', b'&ICQ-')):
+            out.append((tag, b''.join(enc if s == 'U' else CONC[s] for s in syms)))
+        if layout == 'fs' and syms.count('U') >= 2 and 'a' in syms:
+            # "<fullwidth ..><delimiter>user1x": the way up and the neighbour's directory name
+            out.append(('compat-up', b''.join(b'&,w4-' if s == 'U' else b'user1x' if s == 'a'
+                                              else CONC[s] for s in syms)))
     if layout == 'fs' and 'a' in syms:
         comps: list = [[]]
         for s in syms:
@@ -706,25 +718,52 @@ class DictWorld:
         w = self.w
         # user1x first; what user1 does afterwards (its own set-up included) must
         # not show in user1x's dump
-        for u in ('user1x', 'user1'):
+        for u in VICTIMS + ('user1',):
             w.connect(u)
             Store._ok(w.login(u, u))
             if u == 'user1':
                 self.baseline = self.dump()
-            for line in (b'APPEND INBOX ' + lit(MSG[u]), b'CREATE a',
-                         b'APPEND a ' + lit(MSG[u]), b'SUBSCRIBE a'):
+                self.threads_before = self.thread_probe('p')
+            lines = [b'APPEND INBOX ' + lit(MSG[u]), b'CREATE a',
+                     b'APPEND a ' + lit(MSG[u]), b'SUBSCRIBE a']
+            if u == 'user1':
+                # the actor holds a message that REFERS to message ids the other users will use
+                lines.append(b'APPEND INBOX ' + lit(
+                    b'Message-ID: <actor@v>\r\nReferences: <p1@v> <p2@v> <q1@v> <q2@v>\r\n'
+                    b'Subject: thread probe\r\n\r\nx\r\n'))
+            for line in lines:
                 resp = w.cmd(u, line)
-                if u == 'user1x':
+                if u != 'user1':
                     Store._ok(resp)
         self.n = 0
-        self.setup_changed = [DUMP[i].decode() for i, d in enumerate(self.dump())
-                              if d != self.baseline[i]]
+        self.setup_changed = [f'{VICTIMS[i // len(DUMP)]}: {DUMP[i % len(DUMP)].decode()}'
+                              for i, d in enumerate(self.dump()) if d != self.baseline[i]]
 
     def dump(self) -> list:
         out = []
-        for line in DUMP:
-            out.append(self.w.cmd('user1x', line, tag=b'D'))
+        for v in VICTIMS:
+            for line in DUMP:
+                out.append(self.w.cmd(v, line, tag=b'D'))
         return out
+
+    def thread_probe(self, k: str) -> str:
+        """user1x stores two unrelated messages <k1@v>, <k2@v> (same subject) in a mailbox of
+        its own: do they get ONE thread id?  (They must not: only a message of ANOTHER user
+        refers to both.)"""
+        w = self.w
+        w.cmd('user1x', b'CREATE thr' + k.encode(), tag=b'D')
+        for i in (1, 2):
+            w.cmd('user1x', b'APPEND thr%s ' % k.encode() + lit(
+                b'Message-ID: <%s%d@v>\r\nSubject: thread probe\r\n\r\nbody %d\r\n'
+                % (k.encode(), i, i)), tag=b'D')
+        w.cmd('user1x', b'EXAMINE thr' + k.encode(), tag=b'D')
+        out = w.cmd('user1x', b'FETCH 1:2 (THREADID)', tag=b'D')
+        ids = re.findall(rb'THREADID \(([^)]*)\)', out)
+        w.cmd('user1x', b'EXAMINE INBOX', tag=b'D')
+        w.cmd('user1x', b'DELETE thr' + k.encode(), tag=b'D')
+        if len(ids) != 2:
+            return 'unreadable'
+        return 'one-thread' if ids[0] == ids[1] else 'two-threads'
 
     def run_slot(self, slot: str, name: bytes):
         w = self.w
@@ -780,9 +819,9 @@ def dict_campaign(run: Run, states: list, quick: bool) -> None:
                         signal.setitimer(signal.ITIMER_REAL, 0)
                         signal.signal(signal.SIGALRM, old)
                     n_exec += 1
-                    changed = [DUMP[i].decode() for i in range(len(DUMP))
-                               if after[i] != dw.baseline[i]]
-                    shared = dw.w.mailbox_set('user1x') is dw.w.mailbox_set('user1')
+                    changed = [f'{VICTIMS[i // len(DUMP)]}: {DUMP[i % len(DUMP)].decode()}'
+                               for i in range(len(after)) if after[i] != dw.baseline[i]]
+                    shared = any(dw.w.mailbox_set(v) is dw.w.mailbox_set('user1') for v in VICTIMS)
                     run.count_exec(('dict', slot, key, variant),
                                    nontrivial=cond[0] in ('OK', 'NO'))
                     if changed or shared:
@@ -794,6 +833,16 @@ def dict_campaign(run: Run, states: list, quick: bool) -> None:
                              'name_hex': name.hex(), 'abstract': show(st['name'])},
                             f'dict:{slot}:OtherUserChanged')
                         dw.baseline = after
+                if dw.threads_before == 'two-threads':
+                    after_t = dw.thread_probe('q')
+                    if after_t != 'two-threads':
+                        run.violation(
+                            'dict backend: two unrelated messages user1x stores now share a THREADID '
+                            f'({after_t}) because a message in user1\'s store refers to both: '
+                            'what user1 holds changes what user1x observes',
+                            {'check': 'C08', 'backend': 'dict', 'slot': 'THREADID',
+                             'name_hex': name.hex(), 'abstract': show(st['name'])},
+                            'dict:THREADID:OtherUserChanged')
             finally:
                 dw.close()
     run.notes['dict'] = {'names': len(seen), 'executions': n_exec,
@@ -896,6 +945,7 @@ def maildir_campaign(run: Run, store: Store, states: list, rng, quick: bool,
     acc = {'escapes': {}, 'not_observed': {}, 'cond': {}}
     t0 = time.time()
     cut = False
+    by_name = {(str(s_['layout']), tuple(str(x) for x in s_['name'])): s_ for s_ in states}
     for st in states:
         layout = '++' if str(st['layout']) == 'pp' else 'fs'
         rst = risk.get(skey(st), st)
@@ -904,6 +954,15 @@ def maildir_campaign(run: Run, store: Store, states: list, rng, quick: bool,
         variants = concretise(st['name'], layout, full=full, long_too=not quick)
         if quick and not interesting:
             variants = variants[:1]
+            # ... but a harmless non-ASCII name whose "." / delimiter TWIN is a dangerous name
+            # is also sent in compatibility look-alikes of those characters
+            syms = tuple(str(x) for x in st['name'])
+            if 'U' in syms:
+                twins = [by_name.get((str(st['layout']), tuple(t if x == 'U' else x for x in syms)))
+                         for t in ('DOT', 'SEP')]
+                if any(t is not None and (t['bad'] or risk.get(skey(t), t)['bad']) for t in twins):
+                    variants += [v for v in concretise(st['name'], layout, full=True, long_too=False)
+                                 if v[0].startswith(('compat', 'dot-leader'))]
         elif any(str(x) == 'NUL' for x in st['name']) and not interesting:
             variants = variants[:2]       # the path never reaches the kernel
         for slot in SLOTS:
